@@ -540,6 +540,7 @@ Dim(k) ==
                                     [] Bound = 1 -> <<2, 3, 3, Len(ContentTypes), 2, 3, 2>>
                                     [] OTHER -> <<2, 43, 43, Len(ContentTypes), 2, 1, 2>>, k)
       [] Family = "dup"      -> V(<<Len(DupCases)>>, k)
+      [] Family = "forever"  -> V(<<2, 3, 2>>, k)
       [] Family = "logical"  -> V(<<Len(Logical)>>, k)
       \* request, key, position, variant (1 plain lower-case guess, 2 upper-case guess, 3 logger enabled at Trace level)
       [] Family = "ct"       -> V(<<IF Bound = 0 THEN 1 ELSE 3, IF Bound = 0 THEN 1 ELSE 2, Len(CtPositions), 3>>, k)
@@ -660,6 +661,12 @@ BundleOf ==
                                   THEN << [k |-> "body", v |-> SetAt(body, Len(body), IF body[Len(body)] = 49 THEN 50 ELSE 49)] >>
                                   ELSE <<>>]
       [] Family = "dup" -> DupCases[idx[1]]
+      [] Family = "forever" ->
+            \* a provider that never becomes ready / never answers, for a valid request, one refused before the
+            \* provider is consulted, and one with a wrong signature
+            LET b  == Bundle0(CarrierOf(idx[3]))
+                b2 == [b EXCEPT !.script.readyIn = IF idx[1] = 1 THEN -1 ELSE 1, !.script.pendIn = IF idx[1] = 2 THEN -1 ELSE 0]
+            IN (CASE idx[2] = 1 -> b2 [] idx[2] = 2 -> Inject(b2, 14, 1) [] idx[2] = 3 -> Inject(b2, 16, 1))
       [] Family = "logical" ->
             LET g  == Logical[idx[1]]
                 b  == Bundle0(g.carrier)
